@@ -174,4 +174,27 @@ prop('C15',
                   'T5 H3 is a deterministic function of its input; nothing else about it is used',
                   'outlined std idiom chain+cloned+collect on byte slices equals concatenation'],
      design_ref='DESIGN.md section 4 C15')
+prop('C19',
+     level_text='For every ciphersuite (abstract field/group), every batch size, every mix of keys, messages and signatures and every RNG stream: '
+                'Verus proves the real text of batch::Verifier::verify / new / default / queue, batch::Item::new / verify_single, '
+                'VerifyingKey::verify_prehashed / verify, the free fn challenge and the default hooks pre_verify / challenge / verify_signature against '
+                'contracts that state the whole result: verify_prehashed == Ok iff h*(z*G - c*A - R) == 0 (else InvalidSignature); challenge == '
+                'H2(enc(R) || enc(A) || msg), GroupError exactly when R or A is the identity; Verifier::verify == Err(InvalidSignature) on the empty '
+                'batch and otherwise Ok iff h * MSM([-(sum b_i z_i)] ++ [b_i c_i] ++ [b_i], [G] ++ [VK_i] ++ [R_i]) == 0 where b_i is the i-th '
+                'Field::random draw from the caller\'s rng (one fresh blinder per item, drawn after the items are fixed: loop invariants '
+                'fresh_blinders, p_coeff_acc, r_coeffs, rs, vk_coeffs, vks, covers_all_items).  Machine-checked theorems (lemmas/vprops_batch.rs): the '
+                'check value equals -sum_i b_i*Delta_i with Delta_i = z_i G - c_i VK_i - R_i; a non-empty batch whose every item verifies is accepted '
+                'for EVERY blinder vector / rng stream; the empty batch is rejected; Item::new(..).verify_single() equals ordinary verification of the '
+                'same key, message and signature; a batch with exactly one invalid item, at any position, is rejected whenever that item\'s blinder is non-zero.',
+     level_note='NOT decided: rejection of a batch with two or more invalid items (e.g. crafted so that their errors cancel) holds only except with '
+                'probability about 1/q (128-bit blinders: 2^-128) over the verifier\'s blinders (Schwartz-Zippel); this is a probabilistic statement '
+                'outside the logic.  The contracts pin its premises: one blinder per item, each a fresh Field::random draw from the caller\'s rng, '
+                'drawn after the items are fixed, each item\'s error term scaled by its own blinder.  That Field::random is uniform / 128-bit is a '
+                'property of the ciphersuite crates, not checked.  Assumed: the multiscalar-multiplication result (outlined chained-iterator call; '
+                'body Kani-backed, bounded), `msg.as_ref()` returns a function of msg, default world (hooks not overridden; Taproot has its own unit).',
+     assumptions=['vartime_multiscalar_mul over once(..).chain(..).chain(..) returns sum_i points_i*scalars_i (outlined, assumed; requires equal lengths, which is proved)',
+                  'std: `?` converts GroupError with the generated From impl; `impl From<T> for T` is the identity (only needed by callers of queue)',
+                  'soundness for >= 2 invalid items is probabilistic (Schwartz-Zippel) and not decided'],
+     design_ref='DESIGN.md section 4 C19')
+
 prop('CDEV', level_text='dev', level_note='dev', claimed=False)
